@@ -44,6 +44,9 @@ InitC01(n) ==
           \/ \E s \in SeqsUpTo(ElemsSmall, n) : InitWith(PCfg(kf, mb), Batch(s))
           \/ \E x \in NotJsonClasses : InitWith(PCfg(kf, mb), NotJson(x))
           \/ \E x \in HugeClasses : InitWith(PCfg(kf, mb), Huge(x))
+    \* (non-raising) middlewares that answer themselves or answer nothing: still a well-formed document or nothing, never "[]"
+    \/ \E kf \in KindFl, st \in {<<"drop">>, <<"short">>, <<"shortall">>, <<"pass", "drop">>}, s \in SeqsUpTo(ElemsSmall, 2) :
+          InitWith(Cfg(kf[1], "unset", st, NoEh, DefPerr, "ValueError", kf[2]), Batch(s))
 
 (************************************ C02 **********************************)
 ElemKinds == {<<"s_v20", "m_ok", "a_1">>, <<"s_v20", "m_unk", Absent>>, <<"s_v20", "m_one", Absent>>,
@@ -90,7 +93,7 @@ InitC03 ==
     \/ \E kf \in KindFl, mb \in {"unset", "n1"}, t \in C03Texts : InitWith(PCfg(kf, mb), t)
 
 (************************************ C12 **********************************)
-MwKinds == {"pass", "short", "shortall", "rewriteReq", "rewriteResp"}   \* shortall answers notifications too
+MwKinds == {"pass", "short", "shortall", "drop", "rewriteReq", "rewriteResp"}   \* shortall answers notifications too, drop answers nothing
 Eh(g, by) == [gen |-> g, by |-> [c \in EhKeys |-> IF c \in DOMAIN by THEN by[c] ELSE <<>>]]
 EhTables == {NoEh,
              Eh(<<"identity">>, <<>>), Eh(<<"replace">>, <<>>), Eh(<<"identity", "replace">>, <<>>),
